@@ -1724,6 +1724,93 @@ static void pid_scratch_alignment(int N, unsigned opr, vf_rng *r)
     free(t[1].tab);
 }
 
+/* The scratch block handed back with a SMALLER count after it was really shrunk in place - what set_nfuzz of the Python, Lua and JavaScript bindings does:
+   ptr = realloc(a_pid_fuzzy_bfuzz(ctx), A_PID_FUZZY_BFUZZ(num)); a_pid_fuzzy_set_bfuzz(ctx, ptr, num); and realloc returns the same address when it
+   shrinks. The block of A_PID_FUZZY_BFUZZ(N) bytes is attached for N sets and used; then only its first A_PID_FUZZY_BFUZZ(M) bytes, M < N, still belong
+   to the controller (the rest becomes guard bytes, which the allocator would have split off) and the same pointer is set again with M; at most M sets
+   are ever active at once (shoulder partitions: 2). Guards intact after every call, outputs and gains bit for bit those of a twin on fresh exact-size
+   blocks (seeded change C13-M: set_bfuzz keeps the layout of the larger count when pointer and a smaller count come back, so the value area ends
+   behind the shrunk block). */
+static void pid_scratch_shrunk(int N, unsigned opr, vf_rng *r)
+{
+    int const M = 2 + (int)vf_below(r, (uint64_t)(N - 2)); /* 2 .. N-1 */
+    size_t const sz1 = A_PID_FUZZY_BFUZZ((size_t)N), sz2 = A_PID_FUZZY_BFUZZ((size_t)M);
+    double const L = vf_chance(r, 1, 2) ? 1 : vf_logu(r, -2, 3);
+    mtab t[2];
+    double *mk[3], base[3], prev = 0;
+    unsigned char *buf = (unsigned char *)malloc(sz1);
+    void *tb1 = malloc(sz1), *tb2 = malloc(sz2);
+    a_pid_fuzzy *c[2];
+    int g, i, bad = 0;
+    tab_build(&t[0], T_TRI_SHOULDER, N, L, r);
+    tab_build(&t[1], T_TRI_SHOULDER, N, L * vf_uniform(r, 0.5, 2), r);
+    if (t[0].term || t[1].term) { free(t[0].tab); free(t[1].tab); free(buf); free(tb1); free(tb2); return; } /* tables that end early are another clause */
+    for (g = 0; g < 3; ++g)
+    {
+        mk[g] = (g && vf_chance(r, 1, 8)) ? NULL : (double *)malloc(sizeof(double) * (size_t)(N * N));
+        for (i = 0; mk[g] && i < N * N; ++i) { mk[g][i] = vf_uniform(r, -8, 8); }
+        base[g] = vf_chance(r, 1, 2) ? 0 : vf_uniform(r, -100, 100);
+    }
+    memset(buf, 0xA5, sz1); memset(tb1, 0xA5, sz1); memset(tb2, 0xA5, sz2);
+    vf_log("a_pid_fuzzy scratch shrunk in place: order %d, block of A_PID_FUZZY_BFUZZ(%d) = %zu bytes, later A_PID_FUZZY_BFUZZ(%d) = %zu bytes at the same address, opr %u", N, N, sz1, M, sz2, opr);
+    for (g = 0; g < 2; ++g)
+    {
+        c[g] = (a_pid_fuzzy *)malloc(sizeof(*c[g]));
+        memset(c[g], 0, sizeof(*c[g]));
+        c[g]->pid.summax = 1e9; c[g]->pid.summin = -1e9; c[g]->pid.outmax = 1e9; c[g]->pid.outmin = -1e9;
+        a_pid_fuzzy_set_opr(c[g], opr);
+        a_pid_fuzzy_set_rule(c[g], (unsigned)N, t[0].tab, t[1].tab, mk[0], mk[1], mk[2]);
+        a_pid_fuzzy_set_bfuzz(c[g], g ? tb1 : (void *)buf, (a_size)N);
+        a_pid_fuzzy_set_kpid(c[g], base[0], base[1], base[2]);
+        a_pid_fuzzy_init(c[g]);
+    }
+    for (i = 0; i < 10 && !bad; ++i)
+    {
+        double const e = L * vf_uniform(r, -1.1, 1.1), fdb = vf_chance(r, 1, 2) ? 0 : L * vf_uniform(r, -3, 3), set = fdb + e;
+        int const fn = (int)vf_below(r, 3);
+        int idx[8], near = 0;
+        double val[8], out[2];
+        if (tab_eval(&t[0], set - fdb, idx, val, 0, &near) > 2 || tab_eval(&t[1], (set - fdb) - prev, idx, val, 0, &near) > 2) { continue; } /* never with these partitions */
+        if (i == 4)
+        {
+            /* the shrink: same address, smaller block, smaller count */
+            memset(buf + sz2, 0xC3, sz1 - sz2);
+            a_pid_fuzzy_set_bfuzz(c[0], buf, (a_size)M);
+            a_pid_fuzzy_set_bfuzz(c[1], tb2, (a_size)M);
+            VF_COUNT("pid-scratch-shrunk-in-place-and-set-again");
+            if (a_pid_fuzzy_bfuzz(c[0]) != (void *)buf || c[0]->nfuzz != (unsigned)M || (unsigned char *)c[0]->val + sizeof(a_real) * (size_t)((2 + M) * M) > buf + sz2)
+            {
+                vf_viol("pid_fuzzy/bfuzz-layout-after-shrink", "set_bfuzz(same pointer, %d) after set_bfuzz(pointer, %d): nfuzz %u, val at +%td, value area ends at +%td of a block that now has %zu bytes",
+                        M, N, c[0]->nfuzz, (unsigned char *)c[0]->val - buf, (unsigned char *)c[0]->val + sizeof(a_real) * (size_t)((2 + M) * M) - buf, sz2);
+            }
+        }
+        for (g = 0; g < 2; ++g) { out[g] = fn == 0 ? a_pid_fuzzy_run(c[g], set, fdb) : fn == 1 ? a_pid_fuzzy_pos(c[g], set, fdb) : a_pid_fuzzy_inc(c[g], set, fdb); }
+        prev = set - fdb;
+        ++vf.evals;
+        if (i >= 4)
+        {
+            size_t k;
+            VF_COUNT("pid-scratch-shrunk-guards-intact");
+            for (k = sz2; k < sz1 && buf[k] == 0xC3; ++k) {}
+            if (k < sz1)
+            {
+                vf_viol("pid_fuzzy/scratch-overrun/byte-behind-the-shrunk-block-written", "order %d opr %u: block shrunk in place from A_PID_FUZZY_BFUZZ(%d) = %zu to A_PID_FUZZY_BFUZZ(%d) = %zu bytes and set again with count %d; after step %d byte +%zu (behind the block) is 0x%02X",
+                        N, opr, N, sz1, M, sz2, M, i, k, buf[k]);
+                bad = 1;
+            }
+        }
+        if (!same_bits(out[0], out[1]) || !same_bits(c[0]->pid.kp, c[1]->pid.kp) || !same_bits(c[0]->pid.ki, c[1]->pid.ki) || !same_bits(c[0]->pid.kd, c[1]->pid.kd))
+        {
+            vf_viol("pid_fuzzy/scratch-shrunk-in-place-changes-gains", "order %d opr %u step %d: out %a kp %a ki %a kd %a; twin on fresh exact-size blocks: out %a kp %a ki %a kd %a", N, opr, i, out[0], c[0]->pid.kp,
+                    c[0]->pid.ki, c[0]->pid.kd, out[1], c[1]->pid.kp, c[1]->pid.ki, c[1]->pid.kd);
+            bad = 1;
+        }
+    }
+    free(c[0]); free(c[1]); free(buf); free(tb1); free(tb2);
+    for (g = 0; g < 3; ++g) { free(mk[g]); }
+    free(t[0].tab); free(t[1].tab);
+}
+
 /* ------------------------------------------------------------------ plan */
 enum { K_MF, K_OP_GRID, K_OP_RANDOM, K_PID, K_PID_SCRATCH };
 typedef struct { int kind; uint64_t arg; } plan_t;
@@ -1807,6 +1894,9 @@ static void vf_case(uint64_t cno, vf_rng *r)
     {
         int const n = (int)(pl.arg & 0xF), o = (int)(pl.arg >> 4 & 0xF);
         pid_scratch_alignment(n, o < 7 ? (unsigned)o : (vf_chance(r, 1, 2) ? 7u : 1000u), r);
+#ifndef VF_UNALIGNED_SCRATCH
+        if (n >= 3 && !vf.case_viol) { for (int k = 0; k < 3; ++k) { pid_scratch_shrunk(n, o < 7 ? (unsigned)o : 7u, r); } }
+#endif
         break;
     }
     case K_MF:
